@@ -222,138 +222,6 @@ theorem ite_bind_pull {α β : Type} (b : Bool) (a : α) (x : Except Fail α) (k
     (if b = true then (pure a >>= k) else (x >>= k)) = ((if b = true then pure a else x) >>= k) := by
   cases b <;> rfl
 
-theorem sim_arr1loop {f : Nat} (ih : Sim f) : Arr1LoopSt (f+1) := by
-  intro elem len c toks i first c' rest ho hs h
-  obtain ⟨cs, rfl, hlen, hall⟩ := arr_of_shaped hs
-  have hA := At.root ho hs
-  rw [arrayInit1Loop] at h
-  cases hce : consumeEnd toks with
-  | some rest0 =>
-    simp only [hce] at h
-    cases h
-    refine ⟨hs, fun top g fl => ?_⟩
-    cases g with
-    | zero => exact Imp.of_error rfl
-    | succ g => rw [initList_end _ _ _ _ _ _ _ _ _ hce]; exact Imp.refl _
-  | none =>
-    simp only [hce] at h
-    rw [ite_bind_pull] at h
-    obtain ⟨toks1, hfirst, h⟩ := bind_eq_ok h
-    split at h
-    · rename_i hbr
-      obtain ⟨⟨b, e, tok⟩, had, h⟩ := bind_eq_ok h
-      obtain ⟨⟨c1, tok2⟩, hfold, h⟩ := bind_eq_ok h
-      simp only at hfold h
-      have hs1 : shaped (.array elem len) c1 = true :=
-        foldlM_inv (P := fun acc => shaped (.array elem len) acc.1 = true)
-          (fun acc j acc' hh hp => desgStep_shape ih ho tok acc j acc' hh hp) _ _ _ hfold hs
-      obtain ⟨hs', himp2⟩ := ih.arr1loop ho hs1 h
-      refine ⟨hs', fun top g fl => ?_⟩
-      cases g with
-      | zero => exact Imp.of_error rfl
-      | succ g =>
-        rw [initList_item _ _ _ _ _ _ _ _ hce, hfirst, ok_bind]
-        have hdg : isDesg toks1 = true := by
-          cases toks1 with
-          | nil => simp [isBracket] at hbr
-          | cons t r => cases t <;> simp [isBracket] at hbr <;> rfl
-        simp only [pathsOf, hdg, ↓reduceIte]
-        simp only [Init.children] at had
-        have single : ∀ (a : Int) , 0 ≤ a → a < len → b = a.toNat → e = a.toNat →
-            Imp (afterDesg g (.array elem len) top (.arr cs) fl
-                  (desigPaths (.array elem len) top (tok.length + 1) [[a.toNat]] tok))
-              (.ok ⟨c', rest, fl⟩) := by
-          intro a h0 h1 hb he
-          subst hb he
-          rw [range'_one _ _ rfl] at hfold
-          have hstep := foldlM_single hfold
-          obtain ⟨ca, hca, hstep⟩ := bind_eq_ok hstep
-          obtain ⟨⟨ca', t2⟩, hd, hstep⟩ := bind_eq_ok hstep
-          cases hstep
-          have hk : (Init.arr cs).children[a.toNat]? = some ca := getChild_ok hca
-          have hAa := hA.child (childTy_arr elem len a.toNat) hk
-          obtain ⟨hsa, himp1⟩ := ih.desg (top := top) hAa hd
-          obtain ⟨g1, h1'⟩ := himp1 g (tok.length + 1) fl
-          simp only [List.nil_append, After, List.reverse_cons, List.reverse_nil, next_snoc, setAtM_one_arr] at h1'
-          exact h1'.trans (himp2 top g1 fl)
-        rcases arrayDesignator_ok had with ⟨a, rfl, h0, h1, hb, he⟩ | ⟨a, a2, rfl, h0, h1, h2, hb, he⟩
-        · rw [hlen] at h1
-          simp only [List.length_cons]
-          rw [desigPaths_idx_arr (p := []) _ _ rfl (growable_false hA.rootOk rfl) h0 h1]
-          exact single a h0 h1 hb he
-        · rw [hlen] at h2
-          simp only [List.length_cons]
-          rw [desigPaths_range_arr (p := []) _ _ rfl (growable_false hA.rootOk rfl) h0 h1 h2]
-          by_cases heq : a2 = a
-          · subst heq
-            have : a2.toNat + 1 - a2.toNat = 1 := by omega
-            simp only [this, List.range'_one, List.map_cons, List.map_nil, List.nil_append]
-            exact single a2 h0 h2 hb he
-          · intro res hres hcl
-            have hw : 1 < ((List.range' a.toNat (a2.toNat + 1 - a.toNat)).map (fun k => ([] : List Nat) ++ [k])).length := by
-              simp only [List.length_map, List.length_range']; omega
-            rw [afterDesg_wide_dirty hw hres] at hcl
-            cases hcl
-    · rename_i hbr
-      split at h
-      · rename_i hil
-        obtain ⟨ci, hci, h⟩ := bind_eq_ok h
-        obtain ⟨⟨ci', toks2⟩, hinit, h⟩ := bind_eq_ok h
-        simp only at h
-        have hk : (Init.arr cs).children[i]? = some ci := getChild_ok hci
-        have hAi := hA.child (childTy_arr elem len i) hk
-        obtain ⟨hsi, himp1⟩ := ih.init2 (top := false) hAi hinit
-        have hs1 : shaped (.array elem len) ((Init.arr cs).setChild i ci') = true := by
-          have := shaped_set_child hs (childTy_arr elem len i) hk hsi
-          rwa [setAtM_one_arr] at this
-        obtain ⟨hs', himp2⟩ := ih.arr1loop ho hs1 h
-        refine ⟨hs', fun top g fl => ?_⟩
-        obtain ⟨_, himp1⟩ := ih.init2 (top := top) hAi hinit
-        cases g with
-        | zero => exact Imp.of_error rfl
-        | succ g =>
-          rw [initList_item _ _ _ _ _ _ _ _ hce, hfirst, ok_bind]
-          by_cases hdg : isDesg toks1 = true
-          · rcases isDesg_cases hdg with hb | ⟨n, r, rfl⟩
-            · rw [hb] at hbr; exact absurd rfl hbr
-            · simp only [pathsOf, hdg, ↓reduceIte]
-              obtain ⟨e, he⟩ := desigPaths_dot_arr elem len top ((ITok.dot n :: r).length + 1) n r
-              rw [he]; exact Imp.of_error rfl
-          · simp only [Init.children] at hil
-            have hil' : i < len := hlen ▸ hil
-            simp only [pathsOf, hdg, Bool.false_eq_true, ↓reduceIte, cursorIn_arr_root elem len top i ho, hil', pure_bind']
-            obtain ⟨g1, h1'⟩ := himp1 g fl
-            simp only [List.nil_append, After, List.reverse_cons, List.reverse_nil, next_snoc, setAtM_one_arr] at h1'
-            exact h1'.trans (himp2 top g1 fl)
-      · rename_i hil
-        obtain ⟨toks2, hskip, h⟩ := bind_eq_ok h
-        obtain ⟨hs', himp2⟩ := ih.arr1loop ho hs h
-        refine ⟨hs', fun top g fl => ?_⟩
-        cases g with
-        | zero => exact Imp.of_error rfl
-        | succ g =>
-          rw [initList_item _ _ _ _ _ _ _ _ hce, hfirst, ok_bind]
-          by_cases hdg : isDesg toks1 = true
-          · rcases isDesg_cases hdg with hb | ⟨n, r, rfl⟩
-            · rw [hb] at hbr; exact absurd rfl hbr
-            · simp only [pathsOf, hdg, ↓reduceIte]
-              obtain ⟨e, he⟩ := desigPaths_dot_arr elem len top ((ITok.dot n :: r).length + 1) n r
-              rw [he]; exact Imp.of_error rfl
-          · simp only [Init.children] at hil
-            have hil' : ¬ i < len := hlen ▸ hil
-            simp only [pathsOf, hdg, Bool.false_eq_true, ↓reduceIte, cursorIn_arr_root elem len top i ho, hil', pure_bind']
-            rw [initItem_excess]
-            intro res hres hcl
-            obtain ⟨r', hr', hres⟩ := bind_eq_ok hres
-            have := skipExcess_fuel hskip hr'
-            subst this
-            have hc2 : cursorIn (.array elem len) top [] (i+1) = none := by
-              rw [cursorIn_arr_root elem len top (i+1) ho]; simp; omega
-            have := himp2 top g fl
-            rw [hc2] at this
-            exact this res hres hcl
-
-
 theorem firstCursor_arr (elem : Ty) (len : Nat) (top : Bool) (ho : subOk (.array elem len) = true) :
     firstCursor (.array elem len) = cursorIn (.array elem len) top [] 0 := by
   rw [cursorIn_arr_root elem len top 0 ho]; simp [firstCursor]
